@@ -1,18 +1,18 @@
 #!/bin/bash
 # usage: selftest/run.sh [name...] : applies each selftest/<PROP>-<name>.diff to a scratch worktree of /repo (outside /repo and /verif),
 # runs ./check <PROP> against it and expects a VIOLATION (exit 1). The worktree is removed afterwards.
-cd /verif
-WT=/tmp/verif_selftest_wt
+cd "$(dirname "$0")/.."
+WT=/tmp/verif_selftest_wt_$$
 rc=0
 names=("$@"); [ ${#names[@]} -eq 0 ] && names=($(ls selftest/*.diff | xargs -n1 basename | sed 's/\.diff$//'))
 for n in "${names[@]}"; do
   P=${n%%-*}
   rm -rf $WT; git -C /repo worktree prune; git -C /repo worktree add -q --detach $WT HEAD || exit 2
-  if ! git -C $WT apply /verif/selftest/$n.diff; then echo "$n: patch does not apply"; rc=2; git -C /repo worktree remove --force $WT; continue; fi
-  out=$(VERIF_REPO=$WT VERIF_REPLAY_OUT=/tmp/verif_selftest_out/replays VERIF_EVIDENCE_OUT=/tmp/verif_selftest_out/evidence ./check $P --tier ${TIER:-quick} 2>&1); c=$?
+  if ! git -C $WT apply $PWD/selftest/$n.diff; then echo "$n: patch does not apply"; rc=2; git -C /repo worktree remove --force $WT; continue; fi
+  out=$(VERIF_REPO=$WT VERIF_REPLAY_OUT=/tmp/verif_selftest_out_$$/replays VERIF_EVIDENCE_OUT=/tmp/verif_selftest_out_$$/evidence ./check $P --tier ${TIER:-quick} 2>&1); c=$?
   v=$(echo "$out" | grep -m1 -o "VIOLATION property=[A-Z0-9]* .*signature=[^ ]*" | sed 's/replay=[^ ]* //')
   if [ $c -eq 1 ]; then echo "$n: caught ($v)"; else echo "$n: NOT caught (exit $c) $(echo "$out" | tail -1 | cut -c1-200)"; rc=1; fi
   git -C /repo worktree remove --force $WT
 done
-rm -rf /tmp/verif_selftest_out
+rm -rf /tmp/verif_selftest_out_$$
 exit $rc
